@@ -39,11 +39,12 @@ class Profile:
         # None / "cells" (iterm2, wezterm: image becomes cell content) / "placement" (konsole)
         self.iterm2_images = iterm2_images
         self.kitty_version = kitty_version
+        self.hex_case = "lower"   # XParseColor accepts hex digits in either case
 
     def describe(self):
         return {"name": self.name, "version": self.version, "fmt": self.xtversion_fmt,
                 "answers": sorted(self.answers), "fg": list(self.fg), "bg": list(self.bg),
-                "hexw": list(self.hex_widths), "term": self.osc_term,
+                "hexw": list(self.hex_widths), "hexcase": self.hex_case, "term": self.osc_term,
                 "kitty": self.kitty_graphics, "iterm2": self.iterm2_images}
 
     def color_spec(self, which):
@@ -53,6 +54,10 @@ class Profile:
         for v16, w in zip(comps, widths):
             # XParseColor: an n-digit value is the most significant n nibbles
             parts.append("%0*x" % (w, v16 >> (16 - 4 * w)))
+        if self.hex_case == "upper":
+            parts = [p.upper() for p in parts]
+        elif self.hex_case == "mixed":
+            parts = [p.upper() if i % 2 else p for i, p in enumerate(parts)]
         return "rgb:" + "/".join(parts)
 
     def expected_color(self, which):
